@@ -19,6 +19,33 @@ def _fr(x):
     return Fraction(x)
 
 
+def _integral(vals):
+    return all(Fraction(v).denominator == 1 for v in vals)
+
+
+def _typed(vals, shape, form):
+    """the same real numbers in the requested container / dtype"""
+    fr = [Fraction(v) for v in vals]
+    if form in ("int64", "pyint") and all(v.denominator == 1 for v in fr):
+        a = np.array([int(v) for v in fr], dtype=np.int64)
+        a = a.reshape(shape) if shape is not None else a
+        return a.tolist() if form == "pyint" else a
+    a = np.array([float(v) for v in fr], dtype=float)
+    a = a.reshape(shape) if shape is not None else a
+    if form == "float32":
+        return a.astype(np.float32)
+    if form == "pyfloat":
+        return a.tolist()
+    if form == "tuple":
+        return tuple(map(tuple, a.tolist())) if a.ndim == 2 else tuple(a.tolist())
+    return a
+
+
+IMAGE_FORMS = ["native_float", "native_float", "native_int64", "native_pyint", "slim_int64", "slim_pyint",
+               "native_float32", "slim_float", "structure", "native_pyfloat"]
+KERNEL_FORMS = ["nd", "nd", "list", "pyint", "int64", "manual_mask"]
+
+
 def _farr(vals, shape=None):
     a = np.array([float(Fraction(v)) for v in vals], dtype=float)
     return a.reshape(shape) if shape is not None else a
@@ -135,6 +162,8 @@ class C03(PropertyCheck):
     def _background(cls, case):
         """sky level lifting the (signed) blurred image above zero for the Poisson draw the simulator always
         performs (and discards); an integer, so adding and subtracting it is exact"""
+        if "background" in case:
+            return int(Fraction(case["background"]))
         A = sum(abs(Fraction(v)) for v in case["image"])
         K = sum(abs(Fraction(v)) for v in cls._effective_kernel(case)["vals"])
         return int(A * K) + 1
@@ -157,20 +186,68 @@ class C03(PropertyCheck):
             h, w = self._frame_for(rng, kh, kw, 5, hi)
             m, mk = self._mask_with_margins(rng, h, w, kh // 2, kw // 2)
             K = self._kernel(rng, kh, kw, rng.choice(styles_k))
-            A = self._values(rng, h * w, rng.choice(styles_v))
-            B = A if rng.random() < 0.5 else self._values(rng, h * w, rng.choice(styles_v))
+            iform = rng.choice(IMAGE_FORMS)
+            if "int" in iform:
+                # integer-dtype images against fractional kernels: any integer-typed accumulator truncates
+                A = self._values(rng, h * w, rng.choice(["int", "sparse", "neg", "pos"]))
+                if rng.random() < 0.6:
+                    K = self._kernel(rng, kh, kw, "dyadic")
+            else:
+                A = self._values(rng, h * w, rng.choice(styles_v))
+            B = A if rng.random() < 0.5 else self._values(
+                rng, h * w, rng.choice(["int", "sparse", "neg", "pos"] if "int" in iform else styles_v))
             yield {"tag": f"convolve_{mk}", "kind": "convolve", "mask": mask_json(m), "kernel": K,
-                   "image": qlist(A), "blur": qlist(B), "store_native": rng.random() < 0.5}
+                   "image": qlist(A), "blur": qlist(B), "store_native": rng.random() < 0.5,
+                   "image_form": iform, "kernel_form": rng.choice(KERNEL_FORMS),
+                   "interpolation_wrapper": rng.random() < 0.3}
             # mapping matrix on the same convolver class: signed / sparse / fractional / negative-only
             n_un = sum(1 for r in m for b in r if not b)
             ncols = rng.randint(1, 4)
             vs = rng.choice(["int", "sparse", "dyadic", "neg", "sparse", "tiny"])
             M = [self._values(rng, ncols, vs) for _ in range(n_un)]
             yield {"tag": f"matrix_{vs}", "kind": "matrix", "mask": mask_json(m), "kernel": K,
-                   "matrix": qmat(M), "ncols": ncols}
+                   "matrix": qmat(M), "ncols": ncols,
+                   "matrix_form": rng.choice(["float", "float", "int64", "float32", "fortran"]),
+                   "kernel_form": rng.choice(KERNEL_FORMS)}
             if idx % 4 == 0:
                 A2 = self._values(rng, h * w, rng.choice(styles_v))
-                yield {"tag": "same", "kind": "same", "h": h, "w": w, "kernel": K, "image": qlist(A2)}
+                yield {"tag": "same", "kind": "same", "h": h, "w": w, "kernel": K, "image": qlist(A2),
+                       "image_form": rng.choice(["float", "int64", "pyint", "float32"]),
+                       "kernel_form": rng.choice(KERNEL_FORMS)}
+        # 0b. degenerate frames and masks: 1xN / Nx1 / 1x1 frames, no unmasked pixel, one, all
+        for _ in range(30 if quick else 240):
+            shape_kind = rng.choice(["row", "col", "one", "any"])
+            if shape_kind == "row":
+                kh, kw = 1, rng.choice((1, 3, 5))
+                h, w = 1, rng.randint(kw, 9)
+            elif shape_kind == "col":
+                kh, kw = rng.choice((1, 3, 5)), 1
+                h, w = rng.randint(kh, 9), 1
+            elif shape_kind == "one":
+                kh, kw, h, w = 1, 1, 1, 1
+            else:
+                kh, kw = rng.choice(ODD), rng.choice(ODD)
+                h, w = rng.randint(kh, kh + 4), rng.randint(kw, kw + 4)
+            which = rng.choice(["none", "one", "all_inner"])
+            m = gen.full(h, w)
+            ih, iw = h - 2 * (kh // 2), w - 2 * (kw // 2)
+            if which == "one" and ih > 0 and iw > 0:
+                m[kh // 2 + rng.randrange(ih)][kw // 2 + rng.randrange(iw)] = False
+            elif which == "all_inner":
+                for y in range(kh // 2, h - kh // 2):
+                    for x in range(kw // 2, w - kw // 2):
+                        m[y][x] = False
+            K = self._kernel(rng, kh, kw, rng.choice(styles_k))
+            A = self._values(rng, h * w, rng.choice(styles_v))
+            n_un = sum(1 for r in m for b in r if not b)
+            yield {"tag": f"degenerate_{shape_kind}_{which}", "kind": "convolve", "mask": mask_json(m),
+                   "kernel": K, "image": qlist(A), "blur": qlist(A), "store_native": rng.random() < 0.5,
+                   "image_form": rng.choice(IMAGE_FORMS), "kernel_form": rng.choice(KERNEL_FORMS),
+                   "interpolation_wrapper": rng.random() < 0.3}
+            ncols = rng.randint(1, 3)
+            yield {"tag": f"degenerate_matrix_{which}", "kind": "matrix", "mask": mask_json(m), "kernel": K,
+                   "matrix": qmat([self._values(rng, ncols, "int") for _ in range(n_un)]), "ncols": ncols,
+                   "matrix_form": rng.choice(["float", "int64"]), "kernel_form": rng.choice(KERNEL_FORMS)}
         # 1. the whole operator on basis images (image and blurring pixels), small frames
         for _ in range(20 if quick else 120):
             kh, kw = rng.choice((1, 3, 5)), rng.choice((1, 3, 5))
@@ -195,8 +272,23 @@ class C03(PropertyCheck):
                 vals[c] -= sum(vals)     # normalize_psf=False admits kernels summing to zero
             K = {**K, "vals": qlist(vals)}
             A = self._values(rng, h * w, rng.choice(["int", "pos", "sparse"]))
-            yield {"tag": f"simulate_{'norm' if normalize else 'raw'}_{mk}", "kind": "simulate",
-                   "mask": mask_json(m), "kernel": K, "image": qlist(A), "normalize_psf": normalize}
+            case = {"tag": f"simulate_{'norm' if normalize else 'raw'}_{mk}", "kind": "simulate",
+                    "mask": mask_json(m), "kernel": K, "image": qlist(A), "normalize_psf": normalize,
+                    "exposure": q(rng.choice([1, 1, 2, 4, Fraction(1, 2)])),
+                    "subtract_background": rng.random() < 0.85,
+                    "image_form": rng.choice(["float", "int64", "pyint", "float32"]),
+                    "kernel_form": rng.choice(KERNEL_FORMS)}
+            if rng.random() < 0.2:
+                # "set but falsy" sky level 0.0: needs a non-negative blurred image for the Poisson draw
+                case["image"] = qlist(self._values(rng, h * w, "pos"))
+                kv = [abs(int(Fraction(v))) for v in K["vals"]]
+                if normalize:
+                    kv[c] += max(rng.choice([1, 2, 4, 8]) - sum(kv), 0)
+                    while sum(kv) & (sum(kv) - 1):     # round the sum up to a power of two
+                        kv[c] += 1
+                case["kernel"] = {**K, "vals": qlist(kv)}
+                case["background"] = "0"
+            yield case
         # 3. rejected inputs: even kernel sides; footprints leaving the frame
         for _ in range(12 if quick else 80):
             kh, kw = rng.choice([(2, 3), (3, 2), (4, 4), (2, 1), (1, 4), (6, 3)])
@@ -225,8 +317,7 @@ class C03(PropertyCheck):
 
         m = mask_from_json(case["mask"])
         mask = aa.Mask2D(mask=m, pixel_scales=1.0)
-        Kj = case["kernel"]
-        kernel = aa.Kernel2D.no_mask(values=_farr(Kj["vals"], (Kj["h"], Kj["w"])), pixel_scales=1.0)
+        kernel = self._kernel_obj(aa, case)
         try:
             cv = aa.Convolver(mask=mask, kernel=kernel)
         except exc.KernelException:
@@ -235,6 +326,36 @@ class C03(PropertyCheck):
             return mask, kernel, None, {"err": "footprint_outside" if "extends beyond" in str(e) else "MaskException"}
         return mask, kernel, cv, None
 
+    @staticmethod
+    def _kernel_obj(aa, case):
+        """the kernel through one of the equivalent constructors / container types"""
+        Kj = case["kernel"]
+        shape = (Kj["h"], Kj["w"])
+        form = case.get("kernel_form", "nd")
+        if form == "manual_mask":
+            km = aa.Mask2D.all_false(shape_native=shape, pixel_scales=1.0)
+            return aa.Kernel2D(values=_typed(Kj["vals"], None, "pyfloat"), mask=km)
+        vals = _typed(Kj["vals"], shape, {"list": "pyfloat", "pyint": "pyint", "int64": "int64"}.get(form, "nd"))
+        return aa.Kernel2D.no_mask(values=vals, pixel_scales=1.0)
+
+    @staticmethod
+    def _image_obj(aa, vals, shape, mask, form, store_native):
+        """Array2D on `mask` holding the native values `vals`, built from the requested container / dtype"""
+        mb = np.asarray(mask, dtype=bool)
+        if form.startswith("slim"):
+            sl = [v for v, mk in zip(vals, mb.ravel()) if not mk]
+            typ = {"slim_int64": "int64", "slim_pyint": "pyint"}.get(form, "nd")
+            data = _typed(sl, None, typ)
+            if isinstance(data, np.ndarray) and data.size == 0:
+                data = np.zeros(0, dtype=data.dtype)
+            return aa.Array2D(values=data, mask=mask, store_native=store_native)
+        typ = {"native_int64": "int64", "native_pyint": "pyint", "native_float32": "float32",
+               "native_pyfloat": "pyfloat"}.get(form, "nd")
+        data = _typed(vals, shape, typ)
+        if form == "structure":   # an autoarray structure passed where an array is accepted
+            data = aa.Array2D.no_mask(values=data, pixel_scales=1.0).native   # as `apply_mask` passes `.native`
+        return aa.Array2D(values=data, mask=mask, store_native=store_native)
+
     def run_impl(self, case):
         aa = load_autoarray()
         from autoarray import exc
@@ -242,9 +363,9 @@ class C03(PropertyCheck):
         kind = case["kind"]
         if kind == "same":
             h, w = case["h"], case["w"]
-            Kj = case["kernel"]
-            kernel = aa.Kernel2D.no_mask(values=_farr(Kj["vals"], (Kj["h"], Kj["w"])), pixel_scales=1.0)
-            arr = aa.Array2D.no_mask(values=_farr(case["image"], (h, w)), pixel_scales=1.0)
+            kernel = self._kernel_obj(aa, case)
+            arr = aa.Array2D.no_mask(values=_typed(case["image"], (h, w), case.get("image_form", "float")),
+                                     pixel_scales=1.0)
             try:
                 out = kernel.convolved_array_from(array=arr)
             except exc.KernelException:
@@ -262,15 +383,26 @@ class C03(PropertyCheck):
         bm = mask.derive_mask.blurring_from(kernel_shape_native=kernel.shape_native)
         if kind == "convolve":
             sn = bool(case.get("store_native"))
-            img = aa.Array2D(values=_farr(case["image"], (h, w)), mask=mask, store_native=sn)
-            blur = aa.Array2D(values=_farr(case["blur"], (h, w)), mask=bm, store_native=sn)
+            iform = case.get("image_form", "native_float")
+            img = self._image_obj(aa, case["image"], (h, w), mask, iform, sn)
+            blur = self._image_obj(aa, case["blur"], (h, w), bm, iform, sn)
             out = cv.convolve_image(image=img, blurring_image=blur)
-            nb = cv.convolve_image_no_blurring(image=img)
+            if case.get("interpolation_wrapper"):   # thin wrapper of the same operator on a raw slim array
+                nb = cv.convolve_image_no_blurring_interpolation(image=np.array(img.slim.array))
+            else:
+                nb = cv.convolve_image_no_blurring(image=img)
             return {"blurred": qlist(np.asarray(out.slim.array)), "no_blurring": qlist(np.asarray(nb.slim.array)),
                     "blurring_mask": _bits(cv.blurring_mask)}
         if kind == "matrix":
             M = np.array([[float(Fraction(v)) for v in row] for row in case["matrix"]], dtype=float)
             M = M.reshape(len(case["matrix"]), case["ncols"])
+            mform = case.get("matrix_form", "float")
+            if mform == "int64" and _integral([v for row in case["matrix"] for v in row]):
+                M = M.astype(np.int64)
+            elif mform == "float32":
+                M = M.astype(np.float32)
+            elif mform == "fortran":
+                M = np.asfortranarray(M)
             out = cv.convolve_mapping_matrix(mapping_matrix=M)
             return {"matrix": qmat(np.asarray(out))}
         if kind == "operator":
@@ -286,10 +418,13 @@ class C03(PropertyCheck):
                 cols.append(qlist(np.asarray(out.slim.array)))
             return {"support": [list(p) for p in support], "columns": cols}
         if kind == "simulate":
-            img = aa.Array2D.no_mask(values=_farr(case["image"], (h, w)), pixel_scales=1.0)
+            img = aa.Array2D.no_mask(values=_typed(case["image"], (h, w), case.get("image_form", "float")),
+                                     pixel_scales=1.0)
             A = np.asarray(img.native.array)
             bg = float(self._background(case))
-            sim = aa.SimulatorImaging(exposure_time=1.0, background_sky_level=bg, psf=kernel,
+            sim = aa.SimulatorImaging(exposure_time=float(Fraction(case.get("exposure", "1"))),
+                                      background_sky_level=bg, psf=kernel,
+                                      subtract_background_sky=bool(case.get("subtract_background", True)),
                                       normalize_psf=bool(case.get("normalize_psf", True)),
                                       add_poisson_noise_to_data=False,
                                       include_poisson_noise_in_noise_map=False, noise_seed=1)
@@ -326,8 +461,8 @@ class C03(PropertyCheck):
         if kind == "simulate":
             return [{"op": "c03.simulate_fit", "mask": case["mask"], "kernel": case["kernel"],
                      "image": case["image"], "normalize_psf": bool(case.get("normalize_psf", True)),
-                     "background": str(self._background(case)), "exposure": "1",
-                     "subtract_background": True}]
+                     "background": str(self._background(case)), "exposure": case.get("exposure", "1"),
+                     "subtract_background": bool(case.get("subtract_background", True))}]
         if kind == "operator":
             if "err" in impl_obs:
                 return [{"op": "c03.convolve", "mask": case["mask"], "kernel": case["kernel"],
@@ -508,6 +643,8 @@ class C03(PropertyCheck):
         if kind == "simulate":
             A = self._native(case["image"], h, w)
             exp = [self._conv_at(A, K, kh, kw, h, w, (y, x)) for y in range(h) for x in range(w)]
+            sky = Fraction(0) if case.get("subtract_background", True) else Fraction(self._background(case))
+            exp = [e + sky for e in exp]
             if [Fraction(v) for v in obs["simulated"]] != exp:
                 return False, "noise-free simulated data is not the true whole-frame convolution with the simulator's PSF"
             if [Fraction(v) for v in obs["psf"]] != [v for r in K for v in r]:
@@ -515,7 +652,7 @@ class C03(PropertyCheck):
                                "(normalised exactly once iff normalize_psf)")
             if [Fraction(v) for v in obs["data"]] != [exp[y * w + x] for (y, x) in unm]:
                 return False, "masked data are not the simulated data gathered at the mask"
-            if any(Fraction(v) != 0 for v in obs["residual"]):
+            if any(Fraction(v) != sky for v in obs["residual"]):
                 return False, f"noise-free simulated image is not fitted with zero residual: {obs['residual'][:6]}"
             return True, ""
         return True, ""
